@@ -61,6 +61,8 @@ var (
 	classes          = map[string]string{} // class key "<list>:<i>:<by>" -> finding id
 	fixedClasses     = map[string]string{} // class key -> id of the FIXED finding it belonged to (a deviation there = the defect is back)
 	fixedDoc         = map[string][]string{}
+	openIDs          = map[string]bool{} // ids of the open findings that are classified by a predicate, not by a class key
+	curToday         today
 	genTable         string
 	genSeeds         int
 	collected        = map[string]*classRec{}
@@ -173,6 +175,9 @@ type kase struct {
 	Text     string `json:"text,omitempty"`
 }
 
+// abbreviations with a conventional offset (minutes): Go resolves only those of the process's local zone, others get 0 (finding F72)
+var zoneTrue = map[string]int{"UTC": 0, "GMT": 0, "PST": -480, "EST": -300, "CET": 60}
+
 var zoneNames = map[int]string{0: "UTC", 60: "CET", -420: "MST", 330: "IST", -30: "XYT", 840: "LIT", -720: "BIT", 120: "EET", -300: "EST"}
 
 func (k kase) loc(ft feat) *time.Location {
@@ -190,7 +195,7 @@ func (k kase) loc(ft feat) *time.Location {
 		if n == "" {
 			n = "UTC"
 		}
-		return time.FixedZone(n, 0)
+		return time.FixedZone(n, zoneTrue[n]*60) // the offset the abbreviation conventionally denotes (0 for UTC, GMT)
 	}
 	return time.UTC
 }
@@ -228,10 +233,7 @@ func (k kase) expected(td today) time.Time {
 	if ft.noDate() {
 		y, mo, d = td.y, td.m, td.d
 	} else if !ft.hasYear() {
-		y = td.y
-		if mo > td.m {
-			y--
-		}
+		y = td.y // "the current year when it has none" — literally (date.go's previous-year rule for later months is finding F73)
 	}
 	if ft.hour {
 		h = k.I.H
@@ -254,6 +256,8 @@ func (k kase) input(text string) string {
 		return text + lineSuffix
 	case "padded":
 		return "  " + text + " "
+	case "lower-ampm": // the P term's expression admits am|pm
+		return strings.Replace(strings.Replace(text, " AM", " am", 1), " PM", " pm", 1)
 	}
 	return text
 }
@@ -269,7 +273,7 @@ var (
 	secPool   = []int{0, 7, 10, 59}
 	offPool   = []int{0, 60, -420, 330, -30, 840, -720}
 	fracPool  = [][2]int{{3, 120000000}, {3, 7000000}, {3, 0}, {6, 123000}, {6, 999999000}, {9, 123456789}, {9, 1}}
-	namedPool = []string{"UTC", "GMT"}
+	namedPool = []string{"UTC", "GMT", "PST", "EST", "CET"}
 )
 
 func instantsFor(format string, rng *vh.Rng, nRandom int) []kase {
@@ -394,6 +398,18 @@ func instantsFor(format string, rng *vh.Rng, nRandom int) []kase {
 func canonTime(idx int, tm time.Time) string {
 	_, off := tm.Zone()
 	return fmt.Sprintf("ok %d %d %d %d", idx, tm.Unix(), tm.Nanosecond(), off)
+}
+
+func unixOf(canon string) (time.Time, bool) {
+	p := strings.Fields(canon)
+	if len(p) == 5 && p[0] == "ok" {
+		sec, e1 := strconv.ParseInt(p[2], 10, 64)
+		ns, e2 := strconv.ParseInt(p[3], 10, 64)
+		if e1 == nil && e2 == nil {
+			return time.Unix(sec, ns).UTC(), true
+		}
+	}
+	return time.Time{}, false
 }
 
 func instantOf(canon string) string { // drop index and zone offset: what SPEC compares
@@ -631,6 +647,9 @@ func loadClasses() {
 		if f.Status == "open" && f.Class.Key != "" {
 			classes[f.Class.Key] = f.ID
 		}
+		if f.Status == "open" {
+			openIDs[f.ID] = true
+		}
 	}
 }
 
@@ -651,6 +670,28 @@ func judge(section string, k kase, listIdx int, impl, modelC, want string, byIdx
 	fid := ""
 	if eq {
 		fid = classes[key]
+	}
+	if eq && fid == "" {
+		ft := features(k.Format)
+		switch {
+		case k.Surround == "lower-ampm" && strings.Contains(strings.Join(ft.toks, ","), "P"):
+			fid, key = "F69", "lower-case am/pm"
+		case ft.zoneName && !ft.zoneNum && zoneTrue[k.I.ZName] != 0:
+			fid, key = "F72", "zone abbreviation unknown to the process's local zone"
+		case !ft.hasYear() && !ft.noDate() && k.I.Mo > curToday.m:
+			// the deviation must be exactly date.go's rule: the previous year
+			kk := k
+			prev := time.Date(curToday.y-1, time.Month(k.I.Mo), 1, 0, 0, 0, 0, time.UTC)
+			if strings.Fields(instantOf(impl) + " 0")[0] != "" {
+				exp := kk.expected(curToday)
+				if tmImpl, ok := unixOf(impl); ok && tmImpl.Year() == prev.Year() && tmImpl.Equal(exp.AddDate(-1, 0, 0)) {
+					fid, key = "F73", "year-less format, month later than the current month"
+				}
+			}
+		}
+		if fid != "" && !openIDs[fid] {
+			fid = ""
+		}
 	}
 	if fid == "" {
 		fid = fixedClasses[key] // not an open finding: the orchestrator reports "the FIXED finding is back"
@@ -718,6 +759,7 @@ func runSweep(section, list string, cases []kase, sec *vh.Section) {
 	for attempt := 0; attempt < 3; attempt++ { // the run must not straddle midnight (year/day defaulting reads the clock)
 		evs = evs[:0]
 		td = getToday()
+		curToday = td
 		for _, k := range cases {
 			text, ok := k.render()
 			if !ok {
@@ -757,7 +799,20 @@ func runSweep(section, list string, cases []kase, sec *vh.Section) {
 							res.Mismatch(vh.Mismatch{Section: section, Function: "lql RANGE literal accepted but parseLqlDateTime rejects", Input: k, Impl: implRange(e.in), Model: "err"})
 						}
 					} else {
+						// the property quantifies over 1000..2999; a logrange timestamp is int64 nanoseconds (1677-09-21 … 2262-04-11): the
+						// literal is accepted and tm.UnixNano() wraps silently (finding F71)
 						res.Dist(sec, "range/ts-literal-outside-int64-nanos")
+						if k.Surround == "range" {
+							if got := implRange(e.in); got != "err" {
+								fid := ""
+								if openIDs["F71"] {
+									fid = "F71"
+								}
+								res.SpecFail(vh.SpecFailure{Section: section, Kind: "wrong-instant", Input: k, Impl: got, Spec: "the instant " + tm.UTC().Format(time.RFC3339) + " (not representable as int64 nanoseconds: reject)",
+									Model: c, ImplEqModel: true, Finding: fid,
+									What: fmt.Sprintf("RANGE literal %q denotes %s; the parser accepts it and the bound becomes %s (UnixNano wrapped)", e.in, tm.UTC().Format(time.RFC3339), got)})
+							}
+						}
 					}
 				}
 			}
@@ -825,6 +880,11 @@ func sweepCases(list []string, rng *vh.Rng, nRandom int, surrounds []string) []k
 			for _, s := range surrounds {
 				kk := k
 				kk.Surround = s
+				all = append(all, kk)
+			}
+			if strings.Contains(f, " P") && len(seen)%3 == 0 {
+				kk := k
+				kk.Surround = "lower-ampm"
 				all = append(all, kk)
 			}
 		}
@@ -960,19 +1020,27 @@ var undatedPool = []string{"INFO: request handled without incident", "\tat com.a
 	"  ... more frames omitted", "WARNING: the connection pool is exhausted; retrying", "    continued message text, wrapped by the logger"}
 
 type fileCase struct {
-	Format  string `json:"format"`
+	Formats []string `json:"formats,omitempty"` // per header (cyclic); empty = every header in Format
+	Format  string   `json:"format"`
 	Pattern []int  `json:"undated_after_each_header"` // Pattern[i] = number of undated lines after header i
 	Minute0 int    `json:"first_minute"`
 }
 
 // the file's lines: header i carries the instant 2019-03-11 + i minutes (so a stale date is visible), rendered in the format
 func (fc fileCase) lines() (lines []string, header []int, kases []kase) {
-	ft := features(fc.Format)
 	for i, nu := range fc.Pattern {
+		hf := fc.Format
+		if len(fc.Formats) > 0 {
+			hf = fc.Formats[i%len(fc.Formats)]
+		}
+		ft := features(hf)
 		t := time.Date(2019, 3, 11, 0, 0, 0, 0, time.UTC).Add(time.Duration(fc.Minute0+i*7) * time.Minute).Add(time.Duration(i%60) * time.Second)
-		k := kase{List: "col", Format: fc.Format, Surround: "line", I: inst{Y: t.Year(), Mo: int(t.Month()), D: t.Day(), H: t.Hour(), Mi: t.Minute(), S: t.Second()}}
+		k := kase{List: "col", Format: hf, Surround: "line", I: inst{Y: t.Year(), Mo: int(t.Month()), D: t.Day(), H: t.Hour(), Mi: t.Minute(), S: t.Second()}}
 		if ft.frac {
-			k.Frac, k.I.Ns = 3, 120000000
+			k.Frac, k.I.Ns = 3, 789000000
+		}
+		if ft.zoneNum {
+			k.I.OffMin = 180
 		}
 		if ft.zoneName && !ft.zoneNum {
 			k.I.ZName = "UTC"
@@ -1045,6 +1113,8 @@ func runFileCase(fc fileCase, section string, sec *vh.Section) {
 		res.Fatal(args.Out, "driver: %v", err)
 	}
 	run, skipSeen := 0, false
+	prevState, prevCur := "", ""
+	_ = prevCur
 	for i, ln := range lines {
 		ans := outs[i+1]
 		state := ""
@@ -1082,26 +1152,227 @@ func runFileCase(fc fileCase, section string, sec *vh.Section) {
 			if run >= maxFail {
 				skipSeen = true
 			}
+			prevState = state
 			continue
 		}
 		run = 0
+		k := kases[header[i]]
 		if skipSeen {
-			res.Dist(sec, "header-after-a-long-undated-run(not asserted: documented skipping)")
+			// the property has no exemption for the documented 'skipping' state (finding F68)
+			res.Dist(sec, "header-after-a-long-undated-run")
+			want := instantOf(canonTime(-1, k.expected(td)))
+			if instantOf(implCol(ln+"\n")) == want && impl[i] != want {
+				fid := ""
+				if impl[i] == mc && strings.HasPrefix(prevState, "skip=1") && openIDs["F68"] {
+					fid = "F68"
+				}
+				res.SpecFail(vh.SpecFailure{Section: section, Kind: "stale-instant-in-file", Input: fc, Impl: impl[i], Spec: want, Model: mc, ImplEqModel: impl[i] == mc, Finding: fid,
+					What: fmt.Sprintf("line %d (%q) starts with its timestamp but the parser is in its 'skipping' state after %d undated lines in a row: the record carries %s instead of %s", i, ln, maxFail, impl[i], want)})
+			}
+			prevState = state
 			continue
 		}
-		k := kases[header[i]]
 		want := instantOf(canonTime(-1, k.expected(td)))
 		alone := instantOf(implCol(ln + "\n"))
 		if alone != want {
 			res.Dist(sec, "header-format-deviates-alone(known class, not asserted here)")
+			prevState = state
 			continue
 		}
 		if impl[i] != want {
-			res.SpecFail(vh.SpecFailure{Section: section, Kind: "stale-instant-in-file", Input: fc, Impl: impl[i], Spec: want, Model: mc, ImplEqModel: impl[i] == mc,
+			// sticky format (finding F67): the line was dated by the format remembered from an earlier line (fast path) although the
+			// default parser, given the line alone, finds the line's own format
+			kind, fid := "stale-instant-in-file", ""
+			if strings.HasPrefix(ans, "dated ") && len(strings.Fields(ans)) > 1 && strings.HasSuffix(prevState, "cur="+strings.Fields(ans)[1]) {
+				kind = "wrong-instant"
+				if impl[i] == mc && openIDs["F67"] {
+					fid = "F67"
+				}
+			}
+			res.SpecFail(vh.SpecFailure{Section: section, Kind: kind, Input: fc, Impl: impl[i], Spec: want, Model: mc, ImplEqModel: impl[i] == mc, Finding: fid,
 				What: fmt.Sprintf("line %d of the file (%q) starts with its timestamp, fewer than %d undated lines in a row precede it, yet its record carries %s instead of %s", i, ln, maxFail, impl[i], want)})
 			return
 		}
+		prevState = state
 	}
+}
+
+// sticky: files whose lines are in DIFFERENT formats — the format remembered from line 1 is tried first on line 2
+func sectionSticky(rng *vh.Rng) {
+	sec := res.Section("sticky", "spec-search",
+		"one real lineParser over files whose lines are in two different collector formats A, B, B (instants 7 minutes apart; fraction .789, zone +0300 where the format has them): every ordered pair in which A's expression matches somewhere in B's line (so the remembered format can claim it), plus a sample of the others; each record vs the MODEL of lineParser.parse and vs SPEC (the line's own instant)")
+	type pr struct{ a, b string }
+	var hits, others []pr
+	comp := map[string]*regexp.Regexp{}
+	for _, f := range colList {
+		_, rx, _, _, _ := date.VerifFormatInternals(f)
+		comp[f] = regexp.MustCompile(rx)
+	}
+	for _, b := range colList {
+		lb, _, _ := fileCase{Format: b, Pattern: []int{0}}.lines()
+		if len(lb) == 0 {
+			continue
+		}
+		for _, a := range colList {
+			if a == b {
+				continue
+			}
+			if comp[a].Match([]byte(lb[0])) {
+				hits = append(hits, pr{a, b})
+			} else {
+				others = append(others, pr{a, b})
+			}
+		}
+	}
+	n := 60
+	if args.Thorough {
+		n = len(others)
+	} else if len(hits) > 160 {
+		p := rng.Perm(len(hits))
+		var h2 []pr
+		for _, i := range p[:160] {
+			h2 = append(h2, hits[i])
+		}
+		hits = h2
+	}
+	p := rng.Perm(len(others))
+	for i := 0; i < n && i < len(p); i++ {
+		hits = append(hits, others[p[i]])
+	}
+	var wg sync.WaitGroup
+	ch := make(chan fileCase)
+	for w := 0; w < 8; w++ {
+		wg.Add(1)
+		go func() {
+			defer wg.Done()
+			for fc := range ch {
+				runFileCase(fc, "sticky", sec)
+			}
+		}()
+	}
+	for _, x := range hits {
+		ch <- fileCase{Format: x.a, Formats: []string{x.a, x.b, x.b}, Pattern: []int{0, 0, 0}, Minute0: rng.Intn(600)}
+	}
+	close(ch)
+	wg.Wait()
+	res.Done(sec)
+}
+
+// history: the parsers are long-lived objects — an answer must not depend on what was parsed before
+type histCase struct {
+	List string `json:"list"` // col: a fresh date.NewParser(KnownFormats...) per sequence; lql: the package's one parser
+	Seq  []kase `json:"sequence"`
+}
+
+func runHistCase(hc histCase, section string, sec *vh.Section) {
+	td := getToday()
+	var p interface {
+		Parse([]byte) (time.Time, *date.Format)
+	}
+	if hc.List == "col" {
+		p = date.NewParser(colList...)
+	}
+	var lines, impls, wants []string
+	var ks []kase
+	for _, k := range hc.Seq {
+		text, ok := k.render()
+		if !ok {
+			continue
+		}
+		k.Text, k.List, k.Surround = text, hc.List, "alone"
+		var im string
+		if hc.List == "col" {
+			tm, ft := p.Parse([]byte(text))
+			if ft == nil {
+				im = "err"
+			} else {
+				im = canonTime(indexIn(colList, ft.GetFormat()), tm)
+			}
+		} else {
+			_, im = implLql(text)
+		}
+		impls = append(impls, im)
+		wants = append(wants, canonTime(-1, k.expected(td)))
+		lines = append(lines, hc.List+" "+nowStr(td)+" "+vh.HxS(text))
+		ks = append(ks, k)
+	}
+	outs := askModel(lines)
+	for i := range outs {
+		mc := canonModel(outs[i])
+		res.Eval(sec, fmt.Sprint(i)+"|"+ks[i].Format+"|"+ks[i].Text+"|"+fmt.Sprint(len(hc.Seq)))
+		a, b := impls[i], mc
+		if hc.List == "lql" {
+			a, b = dropIdx(a), dropIdx(b)
+		}
+		if a != b {
+			res.Mismatch(vh.Mismatch{Section: section, Function: hc.List + " parse after a history of " + fmt.Sprint(i) + " earlier calls", Input: hc, Impl: impls[i], Model: mc})
+			return
+		}
+		if i == len(outs)-1 && instantOf(impls[i]) != instantOf(wants[i]) && instantOf(canonModel(askModel([]string{lines[i]})[0])) == instantOf(wants[i]) {
+			res.SpecFail(vh.SpecFailure{Section: section, Kind: "wrong-instant-after-history", Input: hc, Impl: impls[i], Spec: wants[i], Model: mc, ImplEqModel: false,
+				What: fmt.Sprintf("%q in format %q is %s after %d earlier calls of the same parser, expected %s", ks[i].Text, ks[i].Format, impls[i], i, wants[i])})
+		}
+	}
+}
+
+func sectionHistory(rng *vh.Rng) {
+	sec := res.Section("history", "system-correspondence",
+		"sequences through ONE parser object: the text of a shorter format A parsed 1..4 times, then the text of a longer format B whose text A's expression also matches (B comes before A in the list) — a fresh date.NewParser(KnownFormats...) per sequence, and the package's one LQL parser; every answer vs the (stateless) MODEL, the last one vs SPEC")
+	base := inst{Y: 2019, Mo: 3, D: 11, H: 13, Mi: 14, S: 15}
+	for _, lst := range []string{"col", "lql"} {
+		fl := colList
+		if lst == "lql" {
+			fl = lqlList
+		}
+		comp := map[string]*regexp.Regexp{}
+		for _, f := range fl {
+			_, rx, _, _, _ := date.VerifFormatInternals(f)
+			comp[f] = regexp.MustCompile(rx)
+		}
+		mk := func(f string) kase {
+			ft := features(f)
+			k := kase{Format: f, I: base}
+			if ft.frac {
+				k.Frac, k.I.Ns = 3, 789000000
+			}
+			if ft.zoneNum {
+				k.I.OffMin = 180
+			}
+			if ft.zoneName && !ft.zoneNum {
+				k.I.ZName = "UTC"
+			}
+			return k
+		}
+		count := 0
+		for bi, b := range fl {
+			kb := mk(b)
+			tb, ok := kb.render()
+			if !ok {
+				continue
+			}
+			for ai := bi + 1; ai < len(fl); ai++ {
+				a := fl[ai]
+				if !comp[a].Match([]byte(tb)) {
+					continue
+				}
+				count++
+				if !args.Thorough && count%3 != 0 {
+					continue
+				}
+				reps := ai - bi // enough hits for a bubble-up heuristic to overtake
+				if reps > 6 {
+					reps = 6
+				}
+				var seq []kase
+				for r := 0; r < reps; r++ {
+					seq = append(seq, mk(a))
+				}
+				seq = append(seq, kb)
+				runHistCase(histCase{List: lst, Seq: seq}, "history", sec)
+			}
+		}
+	}
+	res.Done(sec)
 }
 
 func sectionLineFile(rng *vh.Rng) {
@@ -1199,6 +1470,7 @@ func sectionOwn(rng *vh.Rng) {
 	for attempt := 0; attempt < 3; attempt++ {
 		evs = evs[:0]
 		td = getToday()
+		curToday = td
 		r := rng.Fork("own-instants")
 		for fi, f := range fl {
 			seen := map[string]bool{}
@@ -1720,6 +1992,16 @@ func sectionInteger(rng *vh.Rng) {
 }
 
 
+// the number of a relative literal as ParseFloat reads it
+func relNumber(text string) (float64, bool) {
+	t := strings.ToLower(strings.Trim(text, " "))
+	if len(t) < 3 || t[0] != '-' {
+		return 0, false
+	}
+	v, err := strconv.ParseFloat(t[1:len(t)-1], 64)
+	return v, err == nil
+}
+
 // effective duration of a relative literal under the float contract: ParseFloat × unit, saturated at the int64 horizon
 func relEffDur(text string) (float64, bool) {
 	t := strings.ToLower(strings.Trim(text, " "))
@@ -1839,6 +2121,13 @@ func sectionRelative(rng *vh.Rng) {
 		v, _ := strconv.ParseFloat(x[:len(x)-1], 64)
 		lits = append(lits, rl{"-" + x, v * mult[x[len(x)-1:]]})
 	}
+	// numbers that are not plain naturals: the relative branch hands whatever stands between '-' and the unit to ParseFloat
+	for _, x := range []string{"-5m", "-0.5h", "-1d", "+5m", "-0m", "nanm", "infd", "-infd", "+infh", "-1e3m", "0x10m", "-0x1p4h"} {
+		v, err := strconv.ParseFloat(x[:len(x)-1], 64)
+		if err == nil {
+			lits = append(lits, rl{"-" + x, v * mult[x[len(x)-1:]]})
+		}
+	}
 	td := getToday()
 	var lines []string
 	type obs struct {
@@ -1870,8 +2159,12 @@ func sectionRelative(rng *vh.Rng) {
 		}
 		// SPEC: not later than now
 		if ob[i].c == "err" || ob[i].tm.After(ob[i].aft) {
+			fid := ""
+			if l.dur < 0 && ob[i].c != "err" && strings.HasPrefix(outs[i], "rel ") && openIDs["F70"] {
+				fid = "F70" // a negative number after the '-': now + |n|
+			}
 			res.SpecFail(vh.SpecFailure{Section: "relative", Kind: "relative-in-future-or-rejected", Input: rawCase{"lql", l.text}, Impl: ob[i].c, Spec: "≤ " + ob[i].aft.String(),
-				Model: outs[i], ImplEqModel: false, What: "relative literal " + l.text + " is rejected or denotes an instant later than now"})
+				Model: outs[i], ImplEqModel: fid != "", Finding: fid, What: "relative literal " + l.text + " is rejected or denotes an instant later than now"})
 		}
 	}
 	// monotone: pairs with a strictly larger duration, parsed back to back (the later parse sees a later now, which only helps
@@ -1927,6 +2220,11 @@ func replayDoc(doc corpusDoc, sec *vh.Section) {
 		runFileCase(fc, sec.Name, sec)
 		return
 	}
+	var hc histCase
+	if json.Unmarshal(doc.Input, &hc) == nil && len(hc.Seq) > 0 {
+		runHistCase(hc, sec.Name, sec)
+		return
+	}
 	var pr struct {
 		Smaller string `json:"smaller"`
 		Larger  string `json:"larger"`
@@ -1953,6 +2251,14 @@ func replayDoc(doc corpusDoc, sec *vh.Section) {
 			res.Eval(sec, "raw|"+r.Text)
 			if d := cmpLql(r.Text, out[0], b, a, tm, c); d != "" {
 				res.Mismatch(vh.Mismatch{Section: sec.Name, Function: "parseLqlDateTime", Input: r, Impl: c, Model: out[0] + " (" + d + ")"})
+			}
+			if strings.HasPrefix(out[0], "rel ") && c != "err" && tm.After(a) {
+				fid := ""
+				if d, ok := relNumber(r.Text); ok && d < 0 && openIDs["F70"] {
+					fid = "F70"
+				}
+				res.SpecFail(vh.SpecFailure{Section: sec.Name, Kind: "relative-in-future-or-rejected", Input: r, Impl: c, Spec: "≤ " + a.String(), Model: out[0],
+					ImplEqModel: fid != "", Finding: fid, What: "relative literal " + r.Text + " denotes an instant later than now"})
 			}
 			if n, err := strconv.ParseInt(strings.Trim(r.Text, " "), 10, 64); err == nil && instantOf(c) != instantOf(canonTime(-1, time.Unix(0, n))) {
 				res.SpecFail(vh.SpecFailure{Section: sec.Name, Kind: failKind(c), Input: r, Impl: c, Spec: canonTime(-1, time.Unix(0, n)), Model: out[0],
@@ -2154,6 +2460,8 @@ func main() {
 	sectionSweepLql(rng.Fork("sweep-lql"))
 	sectionLineParser(rng.Fork("lineparser"))
 	sectionLineFile(rng.Fork("linefile"))
+	sectionSticky(rng.Fork("sticky"))
+	sectionHistory(rng.Fork("history"))
 	sectionMutated(rng.Fork("mutated"))
 	sectionInteger(rng.Fork("integer"))
 	sectionRelative(rng.Fork("relative"))
